@@ -12,6 +12,7 @@ import (
 type caseCtx struct {
 	w    *world
 	e    *core.Env
+	b    *recBuf
 	sub  string
 	ci   int
 	desc map[string]any
@@ -36,7 +37,7 @@ func (c *caseCtx) viol(kind string, out *outcome, format string, a ...any) {
 		}
 	}
 	det["resolver_log"] = c.w.logLines(30)
-	c.e.Rec.Violate(c.sub, c.ci, core.Sig("kind", kind, "part", c.sub), det, format, a...)
+	c.b.Violate(c.sub, c.ci, core.Sig("kind", kind, "part", c.sub), det, format, a...)
 }
 
 // fresh is the judgement of one call that asked upstream.
@@ -65,7 +66,7 @@ func (c *caseCtx) checkAsked(name string, out *outcome, stale *entry) fresh {
 	f := fresh{v: v}
 	switch {
 	case out.Panic != "":
-		c.e.Rec.Violate(c.sub, c.ci, core.Sig("kind", "panic", "part", c.sub, "where", core.PanicSite(out.Stack)), map[string]any{"case": c.desc, "stack": out.Stack, "sent": l.log},
+		c.b.Violate(c.sub, c.ci, core.Sig("kind", "panic", "part", c.sub, "where", core.PanicSite(out.Stack)), map[string]any{"case": c.desc, "stack": out.Stack, "sent": l.log},
 			"the resolver panicked during the lookup of %s: %.200s", name, out.Panic)
 		c.bad = true
 		return f
@@ -221,7 +222,7 @@ func (c *caseCtx) checkCachedAPIs(res resolverAPI, name string, en *entry) {
 			}
 		}
 	}
-	c.e.Rec.Count("cached_api_calls", 3)
+	c.b.Count("cached_api_calls", 3)
 }
 
 func fmtKinds(st []udpStep) string {
